@@ -20,6 +20,7 @@ package main
 //        fullq   — the writer is blocked until the queue is full and senders block; then released, then flush;
 //        quiesce — no flush: everything logged is written by the background flusher;
 //        panic   — entries are logged, then the goroutine panics under tars.CheckPanic (flush, os.Exit);
+//        runexit — entries are logged while tars.Run is running; SIGTERM; Run returns through its deferred FlushLogger;
 //        second  — flush, log again, flush again (FlushLogger is one-shot in the code: known finding).
 
 import (
@@ -29,6 +30,8 @@ import (
 	"math/rand"
 	"os"
 	"os/exec"
+	"os/signal"
+	"syscall"
 	"path/filepath"
 	"regexp"
 	"runtime"
@@ -413,6 +416,41 @@ func c20RunScenario(sc c20Scenario) c20ChildOut {
 		close(gate)
 		wg.Wait()
 		flush()
+	case "runexit":
+		// the framework's own flush: tars.Run returns after SIGTERM (grace shutdown) through its deferred FlushLogger
+		sig := make(chan os.Signal, 8)
+		signal.Notify(sig, syscall.SIGTERM) // SIGTERM never kills this process, also before Run has installed its handler
+		runDone := make(chan struct{})
+		go func() { tars.Run(); close(runDone) }()
+		for g := 0; g < sc.G; g++ {
+			wg.Add(1)
+			go logN(g, sc.N, true, &wg)
+		}
+		wg.Wait()
+		out.QLen = rogger.VerifQueueLen()
+		env.rec(flushSlot, c20KFlushCall, 0, 0, 0)
+		t0 := time.Now()
+		stopped := false
+		for i := 0; i < 200 && !stopped; i++ {
+			syscall.Kill(os.Getpid(), syscall.SIGTERM)
+			select {
+			case <-runDone:
+				stopped = true
+			case <-time.After(50 * time.Millisecond):
+			}
+		}
+		if !stopped {
+			out.Hook = "tars.Run did not return after SIGTERM"
+			return out
+		}
+		out.FlushMs = 0 // the duration of FlushLogger inside Run is not observable; only the acknowledged case is judged
+		_ = t0
+		if rogger.VerifFlushDone() {
+			env.rec(flushSlot, c20KFlushRetDone, 0, 0, 0)
+		} else {
+			out.Hook = "tars.Run returned but the flusher has not acknowledged a flush (FlushLogger not called on the way out, or it ran into its time limit)"
+			return out
+		}
 	case "second":
 		for g := 0; g < sc.G; g++ {
 			wg.Add(1)
@@ -651,10 +689,10 @@ func c20Child(sc c20Scenario) (c20ChildOut, string) {
 	var werr error
 	select {
 	case werr = <-ch:
-	case <-time.After(90 * time.Second):
+	case <-time.After(45 * time.Second):
 		cmd.Process.Kill()
 		<-ch
-		return c20ChildOut{}, "child killed after 90 s"
+		return c20ChildOut{}, "child killed after 45 s"
 	}
 	_ = t0
 	if sc.Mode == "panic" {
@@ -765,6 +803,9 @@ func c20Run(c *c20Case) []Failure {
 			if sc.Mode == "quiesce" {
 				sig = "C20/hook/never-written-without-flush"
 			}
+			if sc.Mode == "runexit" {
+				sig = "C20/hook/run-exit-flush-not-acknowledged"
+			}
 			fs = append(fs, Failure{Sig: sig, Desc: out.Hook})
 		}
 		for _, m := range out.Content {
@@ -850,6 +891,10 @@ func c20Gen(tier string, rng *rand.Rand) []c20Case {
 			sc.G = 1 + rng.Intn(6)
 			sc.N = 1 + rng.Intn(30)
 			sc.Delay = []int{0, 0, 50}[rng.Intn(3)]
+		case "runexit":
+			sc.G = 1 + rng.Intn(6)
+			sc.N = 1 + rng.Intn(30)
+			sc.Delay = []int{0, 0, 50}[rng.Intn(3)]
 		case "second":
 			sc.G = 1 + rng.Intn(4)
 			sc.N = rng.Intn(10)
@@ -857,13 +902,13 @@ func c20Gen(tier string, rng *rand.Rand) []c20Case {
 		}
 		return c20Case{Sc: sc, Expect: true}
 	}
-	counts := map[string]int{"forced": 200, "stress": 120, "late": 40, "fullq": 4, "quiesce": 12, "panic": 20, "second": 4}
+	counts := map[string]int{"forced": 200, "stress": 120, "late": 40, "fullq": 4, "quiesce": 12, "panic": 20, "second": 4, "runexit": 8}
 	if tier == "thorough" {
-		counts = map[string]int{"forced": 3000, "stress": 2000, "late": 600, "fullq": 30, "quiesce": 150, "panic": 300, "second": 20}
+		counts = map[string]int{"forced": 3000, "stress": 2000, "late": 600, "fullq": 30, "quiesce": 150, "panic": 300, "second": 20, "runexit": 100}
 	}
 	// the smallest forced case first: one goroutine, one entry inside the window
 	cs = append(cs, c20Case{Sc: c20Scenario{Mode: "forced", G: 1, N: 0, Last: 1, LastN: 1, W: 1, Procs: 2, Seed: 1}, Expect: true})
-	for _, m := range []string{"forced", "stress", "late", "fullq", "quiesce", "panic", "second"} {
+	for _, m := range []string{"forced", "stress", "late", "fullq", "quiesce", "panic", "runexit", "second"} {
 		for i := 0; i < counts[m]; i++ {
 			cs = append(cs, mk(m))
 		}
